@@ -189,6 +189,9 @@ impl AllocationQueue {
 
     pub fn resume(&mut self) {
         self.state = AllocationQueueState::Active;
+        // The queue may have been paused because of too many failures.
+        // Without forgetting them it would be paused again at the next scheduling tick.
+        self.rate_limiter.reset_failures();
     }
 
     pub fn manager(&self) -> &ManagerType {
@@ -528,6 +531,13 @@ impl RateLimiter {
             }
             None => RateLimiterStatus::Ok,
         }
+    }
+
+    /// The queue was resumed, start counting failures from zero again.
+    /// The current back-off delay is kept.
+    pub fn reset_failures(&mut self) {
+        self.submission_fails = 0;
+        self.allocation_fails = 0;
     }
 
     fn increase_delay(&mut self) {
